@@ -237,3 +237,21 @@ Theorem C08_source_reverse_is_model : forall r start e l,
   g_recur_fetch_reverse (reverse_fuel r start e) (r_freq r) (gen_fwd r) start (Some e) = RDone l.
 Proof. exact g_recur_fetch_reverse_composed_eq. Qed.
 Print Assumptions C08_source_reverse_is_model.
+
+(* ---- tie C (third extension): the public fetch() dispatcher as the code has it
+   (Proofs/GenEq_rec_fetch.v) ---- *)
+From CG Require Import Proofs.GenEq_rec_fetch.
+
+(* fetch(start, end, reverse=...) is _fetch_reverse when reverse else _fetch_forward ... *)
+Example C08_source_fetch_dispatch : _ := @g_recur_fetch_eq.
+Print Assumptions C08_source_fetch_dispatch.
+
+(* ... so, composed with the translated _fetch_reverse / _fetch_forward / _get_safe_anchor, it
+   returns what the model's fetch_rec returns, in either direction *)
+Example C08_source_fetch_is_model : _ := g_recur_fetch_composed_eq.
+Print Assumptions C08_source_fetch_is_model.
+
+(* bounds: a forward fetch without a start raises ValueError through the dispatcher too *)
+Example C08_source_fetch_forward_needs_start : _ := g_recur_fetch_forward_needs_start.
+Print Assumptions C08_source_fetch_forward_needs_start.
+Example C08_source_fetch_nonvacuous : _ := g_recur_fetch_ex.
